@@ -333,6 +333,19 @@ func (p *Program) RawFunc(rel, recv, name string) *FuncDecl {
 	return p.rawFunc(rel, recv, name)
 }
 
+// DissolvedNames lists the display names of the helpers that have no existence
+// of their own on the inlined view (see Funcs).
+func (p *Program) DissolvedNames() []string {
+	var out []string
+	for _, m := range p.dissolved {
+		for f := range m {
+			out = append(out, FuncName(f))
+		}
+	}
+	sort.Strings(out)
+	return out
+}
+
 // Anchor marks a function as analysed as a unit (never inlined into callers).
 func (p *Program) Anchor(fn *types.Func) {
 	if p.anchors == nil {
